@@ -304,11 +304,16 @@ fn finish_e1_multi(cfgs: Vec<(String, Config)>, mut rep: Report, rule: &str) -> 
     }
     rep.set("rule", rule.to_string());
     if audit_fail > 0 && rep.violations.is_empty() {
-        // (with violations present the audits are meaningless: states behind a
-        // violation are not expanded)
-        eprintln!("MACHINERY: state key audit failed");
-        let _ = rep.finish();
-        return 2;
+        // Two histories that the state key merged turned out to have different
+        // futures (or the no-dedup enumeration reached a key the BFS did not):
+        // the implementation keeps state that neither the API observation nor
+        // the saved bytes reveal (e.g. the order of an in-memory free list).
+        // Merging then only loses coverage, never soundness of a reported
+        // violation, so this is not an alarm: the run is marked non-exhaustive.
+        eprintln!("NOTE: state key audit failed ({} case(s)): the exploration is not claimed exhaustive", audit_fail);
+        rep.notes.push(format!("state key audit failed in {} case(s): merged states with different futures exist; the run is not claimed exhaustive at the reported depth", audit_fail));
+        rep.set("exhaustive", false);
+        rep.set("state_key_audit_failures", audit_fail);
     }
     rep.finish()
 }
